@@ -115,6 +115,10 @@ type ViewG struct {
 	Status      string `json:"status"`
 }
 
+func (g ViewG) String() string {
+	return fmt.Sprintf("{generation %d labels %s annotations %s spec %s status %s}", g.Generation, short(g.Labels), short(g.Annotations), short(g.Spec), short(g.Status))
+}
+
 func (g ViewG) hex() ViewG {
 	return ViewG{rig.Hex(g.Labels), rig.Hex(g.Annotations), g.Generation, rig.Hex(g.Spec), rig.Hex(g.Status)}
 }
@@ -283,6 +287,7 @@ type stepTrace struct {
 	Out1     *ViewG      `json:"after_strategy_api_view,omitempty"`
 	Err2     string      `json:"store_err,omitempty"`
 	Out2     *ViewG      `json:"store_answer_api_view,omitempty"`
+	Stored   *ViewG      `json:"stored_afterwards_api_view,omitempty"`
 	ModelRej string      `json:"model_rej,omitempty"`
 	Model    interface{} `json:"model_out,omitempty"`
 }
@@ -515,13 +520,20 @@ func (h *H) eval(cs Case) *rig.Failure {
 			return fail("judge", "c20.panic", fmt.Sprintf("step %d (%s): the store panicked: %s", i, st.Op, msg), nil)
 		}
 		t.Err2 = errClass(err2)
-		// ---- judge first, on what the API answered: the property is decided on the real code alone,
-		// whatever the model says
+		// ---- judge first, on what is STORED now against what was stored before (the whole pipeline has run:
+		// PrepareFor…, validation, Canonicalize, the storage codec) — the property is decided on the real code alone,
+		// whatever the model says. Only when the update removed the object is the answer judged instead.
 		var out2API ViewG
 		if err2 == nil {
 			out2API = apiGroups(out2)
 			t.Out2 = &out2API
-			if f := h.judge(cs, trace, s, i, st, created, served, zeroAPI, oldAPI, out2API, subDeep, oldDeep); f != nil {
+			judged := out2API
+			after := s.Main.NewFunc()
+			if gerr := s.Mem.Get(ctx, key, "", after, false); gerr == nil {
+				judged = apiGroups(after)
+				t.Stored = &judged
+			}
+			if f := h.judge(cs, trace, s, i, st, created, served, zeroAPI, oldAPI, judged, subDeep, oldDeep); f != nil {
 				return f
 			}
 		}
@@ -718,12 +730,19 @@ func (h *H) judge(cs Case, trace []stepTrace, s *Served, i int, st Step, created
 	if len(j.Violations) > 0 {
 		v := j.Violations[0]
 		class := "c20." + v
-		storedTxt := fmt.Sprintf("stored %+v", oldAPI)
+		storedTxt := "stored before " + oldAPI.String()
 		if created {
 			storedTxt = "nothing stored (the request created the object)"
 		}
-		what := fmt.Sprintf("step %d: %s of %s (%s): %s; %s, answered %+v", i, st.Op, s.Kind, s.Name, v, storedTxt, out2API)
-		if v == "generation-bumped-without-change" && (subDeep.Spec != oldDeep.Spec || subDeep.Annotations != oldDeep.Annotations) {
+		what := fmt.Sprintf("step %d: %s of %s (%s): %s; %s, stored afterwards %s", i, st.Op, s.Kind, s.Name, v, storedTxt, out2API.String())
+		if v == "generation-bumped-without-change" && (subDeep.SpecSem != oldDeep.SpecSem || subDeep.AnnotationsSem != oldDeep.AnnotationsSem) {
+			// the body did differ from the stored object in spec or annotations, the generation moved, but what is
+			// stored afterwards reads like what was stored before: something after the comparison (Canonicalize, the
+			// storage codec, a store hook) undid the change
+			class = "c20.generation-bumped-but-stored-unchanged"
+			what = fmt.Sprintf("step %d: %s of %s (%s): generation %d -> %d for a body whose spec/annotations differ from the stored ones, but the stored spec and annotations are the same afterwards; stored before %s, body annotations %s, stored afterwards %s",
+				i, st.Op, s.Kind, s.Name, oldAPI.Generation, out2API.Generation, oldAPI.String(), short(subDeep.AnnotationsSem), out2API.String())
+		} else if v == "generation-bumped-without-change" && (subDeep.Spec != oldDeep.Spec || subDeep.Annotations != oldDeep.Annotations) {
 			// spec and annotations read the same before and after, but the decoded Go values differ
 			// (a spelled-out empty list/map/bytes against a missing one): findings/C20-empty-vs-absent-bumps-generation
 			class = "c20.generation-bumped-on-empty-vs-absent"
@@ -784,8 +803,8 @@ func (h *H) genStored(s *Served) []byte {
 	if s.Namespaced {
 		acc.SetNamespace("ns1")
 	}
-	acc.SetLabels(genStrMap(r, labelKeys))
-	acc.SetAnnotations(genStrMap(r, annKeys))
+	acc.SetLabels(genStrMap(r, labelU))
+	acc.SetAnnotations(genStrMap(r, annU))
 	if r.Intn(4) == 0 {
 		a := copyMap(acc.GetAnnotations())
 		if a == nil {
@@ -878,12 +897,12 @@ func (h *H) genSubmitted(s *Served, stored []byte, mask int, o subOpts) []byte {
 	v := reflect.ValueOf(obj).Elem()
 	acc, _ := meta.Accessor(obj)
 	if mask&dLabels != 0 {
-		m, e := editStrMap(r, acc.GetLabels(), labelKeys)
+		m, e := editStrMap(r, acc.GetLabels(), labelU)
 		acc.SetLabels(m)
 		h.c.Count("label-edit:" + e)
 	}
 	if mask&dAnnotations != 0 {
-		m, e := editStrMap(r, acc.GetAnnotations(), annKeys)
+		m, e := editStrMap(r, acc.GetAnnotations(), annU)
 		acc.SetAnnotations(m)
 		h.c.Count("annotation-edit:" + e)
 	}
@@ -1341,7 +1360,7 @@ func main() {
 	installWidget()
 	rig.Main("C20", func(c *rig.Ctx) {
 		h := &H{c: c, served: map[string]*Served{}, obs: map[string]int{}}
-		c.SetRule("a case = one way a kind is served (the 2 registrations of rest.go as the real NewRESTStorageProvider builds them + 4 probe registrations through the same NewResourceREST; protobuf storage, JSON too in thorough) x an initial stored object or none x 1-6 requests (create / main update / status update / DELETE in histories; bodies are JSON documents derived from the stored one with any subset of {labels, annotations, spec, status, generation, other metadata} changed; label/annotation maps over a 5-key universe with values from {\"\",a,b} and changed by structured edits (rename key, swap values, replace an empty-valued key by another, add+remove at equal size, key case, change/add/remove; counted as label-edit:/annotation-edit:); spec/status filled by reflection from small pools and changed by the same kinds of edits on every map/list member or by re-fill; the rest of the metadata varies too: finalizers (added/removed), stored objects that are terminating (deletionTimestamp + grace period 0 or 30, kept by finalizers), owner references, managed fields, uid/creationTimestamp present or not, resourceVersion absent/current/stale, a client-supplied generation on create and update (any value, MaxInt64 and negative included), deletion fields echoed or not; the histogram's differs:<mask> says which groups of the first request differ from the stored object, L=labels A=annotations S=spec T=status G=generation; streams: roundtrip (no explicit empties), explicit-empty ({} [] \"\" null spelled out), invalid-meta, extreme (stored generation MaxInt64/negative/0), history); distinct = distinct canonical case; non-trivial = some field group differs or the object is new")
+		c.SetRule("a case = one way a kind is served (the 2 registrations of rest.go as the real NewRESTStorageProvider builds them + 4 probe registrations through the same NewResourceREST; protobuf storage, JSON too in thorough) x an initial stored object or none x 1-6 requests (create / main update / status update / DELETE in histories; bodies are JSON documents derived from the stored one with any subset of {labels, annotations, spec, status, generation, other metadata} changed; label/annotation maps over small universes that include the well-known tool-written keys (kubectl last-applied-configuration, deployment.kubernetes.io/*, change-cause, helm, leader election), case variants, JSON blobs and 5 KiB values, otherwise values from {\"\",a,b} and changed by structured edits (rename key, swap values, replace an empty-valued key by another, add+remove at equal size, key case, change/add/remove; counted as label-edit:/annotation-edit:); spec/status filled by reflection from small pools and changed by the same kinds of edits on every map/list member or by re-fill; the rest of the metadata varies too: finalizers (added/removed), stored objects that are terminating (deletionTimestamp + grace period 0 or 30, kept by finalizers), owner references, managed fields, uid/creationTimestamp present or not, resourceVersion absent/current/stale, a client-supplied generation on create and update (any value, MaxInt64 and negative included), deletion fields echoed or not; the histogram's differs:<mask> says which groups of the first request differ from the stored object, L=labels A=annotations S=spec T=status G=generation; streams: roundtrip (no explicit empties), explicit-empty ({} [] \"\" null spelled out), invalid-meta, extreme (stored generation MaxInt64/negative/0), history); distinct = distinct canonical case; non-trivial = some field group differs or the object is new")
 		if err := h.addPlane(protobufMedia, ""); err != nil {
 			c.Fail(rig.Failure{Kind: "diff", Class: "c20.plane", What: "the control plane's REST storage can no longer be built the way the harness does: " + err.Error()})
 			return
